@@ -370,6 +370,19 @@ Proof.
   split; [lia|]. split; [vm_compute; reflexivity|]. split; [vm_compute; discriminate|vm_compute; reflexivity].
 Qed.
 
+(* UBI: the amount is never checked against int64; with amount = 2^63 the hard-cap product wraps to 0 *)
+Lemma ubi_mint_safe : forall amount, 0 <= amount < two63 -> is_panic (ubi_mint amount) = false.
+Proof.
+  intros amount H. unfold ubi_mint. rewrite as_int64_small by assumption.
+  destruct (amount * 1000000 <? 0) eqn:E; [lia|reflexivity].
+Qed.
+Lemma ubi_amount_wraps_refuted : exists ubi_sum amount period hardcap, 0 <= amount < two64 /\
+  is_ok (ubi_apply ubi_sum amount period hardcap) = true /\ ubi_mint amount = Panic "neg-coin".
+Proof. exists 0, two63, 86400, 6000000. split; [unfold two63, two64; lia|]. split; vm_compute; reflexivity. Qed.
+Lemma ubi_period_zero_filtered : forall ubi_sum amount hardcap s1 s2,
+  lifecycle (fun _ : unit => do _ <- ubi_apply ubi_sum amount 0 hardcap; Ok tt) s1 s2 = None.
+Proof. intros. apply input_only_panics_filtered. intros []. reflexivity. Qed.
+
 (* ------------------------------------------------------------------ staking validator-set updates *)
 Lemma forallb_zmem : forall l vals, forallb (fun v => zmem v vals) l = true <-> incl l vals.
 Proof.
